@@ -109,7 +109,7 @@ theorem noh_shock_compressive (p : Noh.P) (r t : ℝ) (hγ : 1 < p.gamma) (hρ :
   have hin : Noh.density p r t = p.rho0 * ((p.gamma + 1) / (p.gamma - 1)) ^ p.geometry := by
     simp only [epv_tree, if_pos hc_in, EPV.Bridge.noh_L0_density]
   have hout : Noh.density p (nohShock p t) t = p.rho0 * ((p.gamma + 1) / (p.gamma - 1)) ^ (p.geometry - 1) := by
-    simp only [epv_tree, if_neg hc_out, EPV.Bridge.noh_L1_density]; rw [hbase]
+    simp only [epv_tree, if_neg hc_out, EPV.Bridge.noh_L1_density p _ t hs.ne']; rw [hbase]
   have hpin : Noh.pressure p r t
       = (p.gamma - 1) * p.rho0 * ((p.gamma + 1) / (p.gamma - 1)) ^ p.geometry * p.u0 ^ 2 / 2 := by
     simp only [epv_tree, if_pos hc_in, EPV.Bridge.noh_L0_pressure]
